@@ -337,6 +337,11 @@ pub fn generate(seed: u64, run: u64, prop: &str) -> Generated {
         params.tau_share = *rx.pick(&[0.001, 0.01, 0.02, 0.04, 0.049, 0.96, 0.99, 0.999]);
         tags.push("extreme_tau_share".into());
     }
+    // a cap far from any default a parameter conversion could silently fall back to
+    if rx.chance(0.08) {
+        params.cu = *rx.pick(&[12u64, 20, 50]);
+        tags.push("large_cu".into());
+    }
 
     // ---------------- instance ----------------
     let mut rd = Rng::stream(seed, run, "data");
@@ -642,6 +647,28 @@ pub fn generate(seed: u64, run: u64, prop: &str) -> Generated {
         }
     }
 
+    // other spellings of the same integer comparisons (own stream): NOT (...), BETWEEN
+    let mut rwf = Rng::stream(seed, run, "where_forms");
+    for w in where_.iter_mut() {
+        let parts: Vec<&str> = w.split(' ').collect();
+        if parts.len() == 3 && parts[2].parse::<i64>().is_ok() {
+            if let Some((_, c)) = cols.iter().find(|(q, _)| q == parts[0]) {
+                if let ColType::IntRange { lo, hi } = &c.ty {
+                    let (q, v) = (parts[0].to_string(), parts[2].to_string());
+                    let neg = match parts[1] { ">" => "<=", "<" => ">=", ">=" => "<", "<=" => ">", _ => "" };
+                    if neg.is_empty() { continue; }
+                    match rwf.weighted(&[6, 2, 2]) {
+                        1 => *w = format!("NOT ({} {} {})", q, neg, v),
+                        2 if parts[1] == ">=" => *w = format!("{} BETWEEN {} AND {}", q, v, hi),
+                        2 if parts[1] == "<=" => *w = format!("{} BETWEEN {} AND {}", q, lo, v),
+                        2 if parts[1] == ">" => *w = format!("{} NOT BETWEEN {} AND {}", q, lo, v),
+                        _ => {}
+                    }
+                }
+            }
+        }
+    }
+
     // aggregation over an aggregation, grouped by the inner aggregate (a private-valued key)
     if rg.chance(profile.p_nested_group) && base_t.name == "orders" {
         let a = alias_of(&base_t.name);
@@ -912,6 +939,22 @@ pub fn generate(seed: u64, run: u64, prop: &str) -> Generated {
     }
     if aggs.is_empty() {
         aggs.push(AggSpec { f: AggFn::CountStar, distinct: false, arg: String::new(), alias: "a0".into(), scale: 1.0 });
+    }
+    // a conditional inside the aggregate (own stream): sum(CASE WHEN x > m THEN x ELSE 0 END)
+    let mut rca = Rng::stream(seed, run, "case_in_aggregate");
+    for a in aggs.iter_mut() {
+        if matches!(a.f, AggFn::Sum | AggFn::Avg) && !a.distinct && rca.chance(0.08) {
+            if let Some((q, c)) = numeric.iter().find(|(q, _)| *q == a.arg) {
+                let mid = match &c.ty {
+                    ColType::IntRange { lo, hi } => Some(((lo + hi) / 2) as f64),
+                    ColType::FloatRange { lo, hi } => Some(((lo + hi) / 2.0 * 8.0).round() / 8.0),
+                    _ => None,
+                };
+                if let Some(m) = mid {
+                    a.arg = format!("CASE WHEN {} > {:?} THEN {} ELSE 0 END", q, m, q);
+                }
+            }
+        }
     }
     let mut ashape: Vec<String> = aggs.iter().map(|a| format!("{:?}{}", a.f, if a.distinct { "D" } else { "" })).collect();
     ashape.sort();
